@@ -112,7 +112,7 @@ func TestVerifReplay(t *testing.T) {
 	}
 	if res == "REPLAY-PASSED" {
 		leaked := 0
-		for i := 0; i < 50; i++ {
+		for i := 0; i < 300; i++ { // up to 3 s: goroutines that are about to exit get their chance
 			leaked = runtime.NumGoroutine() - before
 			if leaked <= 0 {
 				break
@@ -144,10 +144,11 @@ type cexFile struct {
 	Msg     string          `json:"msg"`
 	Pkg     string          `json:"pkg"`
 	Nondet  []sym.NondetRec `json:"nondet"`
+	Sites   []string        `json:"sites,omitempty"`
 }
 
 func writeCex(path string, pi pkgInfo, v *sym.Violation, tier int) error {
-	c := cexFile{Harness: v.Harness, Tier: tier, Kind: v.Kind, Msg: v.Msg, Pkg: pi.HarnessDir, Nondet: v.Nondet, Stress: v.Schedule && v.Kind != "RACE-CANDIDATE" && v.Kind != "SAMPLE"}
+	c := cexFile{Harness: v.Harness, Tier: tier, Kind: v.Kind, Msg: v.Msg, Pkg: pi.HarnessDir, Nondet: v.Nondet, Sites: v.Sites, Stress: v.Schedule && v.Kind != "RACE-CANDIDATE" && v.Kind != "SAMPLE"}
 	b, err := json.MarshalIndent(c, "", " ")
 	if err != nil {
 		return err
@@ -169,13 +170,27 @@ func replayNative(scratch string, ov map[string]string, pi pkgInfo, v *sym.Viola
 	if v.Kind == "RACE-CANDIDATE" {
 		// confirmed only by the race detector on the real goroutines
 		var last replayOutcome
-		for i := 0; i < 15; i++ {
-			last = replayCexFileMode(scratch, ov, pi, cex, true)
+		for i := 0; i < 25; i++ {
+			var sites []string
+			if i >= 10 {
+				// plain runs showed nothing: widen the windows at the two accesses
+				sites = v.Sites
+				if len(sites) == 0 {
+					break
+				}
+			}
+			last = replayCexFileMode(scratch, ov, pi, cex, true, sites)
 			last.Runs = i + 1
 			if strings.Contains(last.Output, "DATA RACE") {
 				last.Verdict = "reproduced"
 				last.Detail = "VIOLATION-REPRODUCED: DATA RACE reported by the race detector: " + firstLineAfter(last.Output, "DATA RACE")
+				if sites != nil {
+					last.Detail += " (with delay injection at " + strings.Join(shortSites(sites), ", ") + ")"
+				}
 				return last
+			}
+			if last.Verdict == "error" {
+				break
 			}
 		}
 		if last.Verdict == "reproduced" {
@@ -183,7 +198,7 @@ func replayNative(scratch string, ov map[string]string, pi pkgInfo, v *sym.Viola
 			return last
 		}
 		last.Verdict = "passed"
-		last.Detail = "race detector reported nothing in 15 runs"
+		last.Detail = fmt.Sprintf("race detector reported nothing in %d runs", last.Runs)
 		return last
 	}
 	if v.Schedule {
@@ -197,11 +212,35 @@ func replayNative(scratch string, ov map[string]string, pi pkgInfo, v *sym.Viola
 			break
 		}
 	}
+	if last.Verdict == "passed" && v.Schedule && len(v.Sites) > 0 {
+		// the interleaving did not occur by itself: widen the windows at the statements where
+		// the failing schedule switches goroutines
+		for i := 0; i < 2; i++ {
+			r := replayCexFileMode(scratch, ov, pi, cex, false, v.Sites)
+			r.Runs = last.Runs + 1
+			if r.Verdict == "error" {
+				break
+			}
+			last = r
+			if last.Verdict != "passed" {
+				last.Detail += " (with delay injection at " + strings.Join(shortSites(v.Sites), ", ") + ")"
+				break
+			}
+		}
+	}
 	return last
 }
 
+func shortSites(sites []string) []string {
+	var out []string
+	for _, s := range sites {
+		out = append(out, strings.TrimPrefix(s, repoDir+"/"))
+	}
+	return out
+}
+
 func replayCexFile(scratch string, ov map[string]string, pi pkgInfo, cex string) replayOutcome {
-	return replayCexFileMode(scratch, ov, pi, cex, false)
+	return replayCexFileMode(scratch, ov, pi, cex, false, nil)
 }
 
 func firstLineAfter(txt, marker string) string {
@@ -219,8 +258,8 @@ func firstLineAfter(txt, marker string) string {
 	return ""
 }
 
-func replayCexFileMode(scratch string, ov map[string]string, pi pkgInfo, cex string, race bool) replayOutcome {
-	hang := "20"
+func replayCexFileMode(scratch string, ov map[string]string, pi pkgInfo, cex string, race bool, sites []string) replayOutcome {
+	hang := "40"
 	test := strings.ReplaceAll(strings.Replace(replayTestTmpl, "package PKGNAME", "package "+pi.PkgName, 1), "HANGSECS", hang)
 	testReal := filepath.Join(scratch, pi.HarnessDir+"_zz_verif_replay_test.go")
 	if err := os.WriteFile(testReal, []byte(test), 0644); err != nil {
@@ -233,8 +272,19 @@ func replayCexFileMode(scratch string, ov map[string]string, pi pkgInfo, cex str
 		}
 	}
 	repl[filepath.Join(repoDir, pi.RepoSub, "zz_verif_replay_test.go")] = testReal
+	variant := ""
+	if len(sites) > 0 {
+		dov, tag, err := delayOverlay(scratch, sites)
+		if err != nil {
+			return replayOutcome{Verdict: "error", Output: "delay injection: " + err.Error()}
+		}
+		for k, v := range dov {
+			repl[k] = v
+		}
+		variant = ".delay" + tag
+	}
 	ob, _ := json.Marshal(map[string]interface{}{"Replace": repl})
-	ovPath := filepath.Join(scratch, pi.HarnessDir+"_overlay.json")
+	ovPath := filepath.Join(scratch, pi.HarnessDir+variant+"_overlay.json")
 	if err := os.WriteFile(ovPath, ob, 0644); err != nil {
 		return replayOutcome{Verdict: "error", Output: err.Error()}
 	}
@@ -243,9 +293,9 @@ func replayCexFileMode(scratch string, ov map[string]string, pi pkgInfo, cex str
 		sub = "."
 	}
 	env := append(os.Environ(), "GOFLAGS=-mod=mod", "GOPROXY=off", "GOSUMDB=off", "GOTOOLCHAIN=local", "VERIF_CEX="+cex)
-	bin := filepath.Join(scratch, pi.HarnessDir+".test")
+	bin := filepath.Join(scratch, pi.HarnessDir+variant+".test")
 	if race {
-		bin = filepath.Join(scratch, pi.HarnessDir+".race.test")
+		bin = filepath.Join(scratch, pi.HarnessDir+variant+".race.test")
 	}
 	if _, err := os.Stat(bin); err != nil {
 		// build the test binary once per package and run
@@ -341,6 +391,13 @@ func cmdReplay(args []string) int {
 	}
 	abs, _ := filepath.Abs(args[0])
 	out := replayCexFile(scratch, ov, pi, abs)
+	if out.Verdict == "passed" && len(c.Sites) > 0 {
+		out = replayCexFileMode(scratch, ov, pi, abs, c.Kind == "RACE-CANDIDATE", c.Sites)
+		if c.Kind == "RACE-CANDIDATE" && strings.Contains(out.Output, "DATA RACE") {
+			out.Verdict = "reproduced"
+			out.Detail = "DATA RACE reported by the race detector"
+		}
+	}
 	fmt.Printf("replay verdict: %s\n%s\n", out.Verdict, out.Detail)
 	if out.Verdict == "error" {
 		fmt.Println(out.Output)
